@@ -1,6 +1,7 @@
 package ext
 
 import (
+	"math"
 	"strconv"
 	"strings"
 
@@ -16,7 +17,7 @@ type c18Arg struct {
 	b    bool
 }
 
-var c18Nums = []float64{7, -2.5, 123456}
+var c18Nums = []float64{7, -2.5, 123456, math.Copysign(0, -1), 1152921504606846976, 9007199254740993, 1e21}
 
 func c18MkArg(name string) (any, c18Arg) {
 	switch vh.Choose(name+"k", 4) {
@@ -176,7 +177,18 @@ func VHC18Shapes() {
 	s1 := vh.Bytes("s1", 1)
 	s2 := vh.Bytes("s2", 2)
 	doc := map[string]any{"a": s1, "b": s2, "n": 4.5}
-	switch vh.Choose("shape", 14) {
+	switch vh.Choose("shape", 16) {
+	case 14:
+		// a regex is not a string: neither as the format nor as a %s argument
+		_, k, out := evalExpr([]string{"printf('<%s>', /ab+c/)", "printf(/x%sy/, 'a')", "printf('%5s|', /a/)", "printf('%f', /1/)"}[vh.Choose("re", 4)], doc)
+		vh.Assert(k == ErrRuntime && out == "", "C18: a regex where a string (or number) is required is an error and writes nothing")
+	case 15:
+		// %f and %v render a number the same way (shortest positional decimal, sign of -0 kept)
+		n := c18Nums[vh.Choose("fn", len(c18Nums))]
+		doc["m"] = n
+		_, k, out := evalExpr("printf('%f|%v|%3f', $.m, $.m, $.m)", doc)
+		r := strconv.FormatFloat(n, 'f', -1, 64)
+		vh.Assert(k == OK && out == r+"|"+r+"|"+c18Pad(r, 3, false), "C18: %f renders like %v and print")
 	case 13:
 		// widths count bytes, also for text with multi-byte characters
 		u := []string{"n\u00e9", "\u65e5\u672c", "\U0001F600"}[vh.Choose("mb", 3)]
